@@ -362,7 +362,7 @@ From Sbdf Require Import ImpFactsTsRead.
 Theorem C12_source_ts_read : forall rf rp fo po k sx m (h : heap) tmb n, Forall byte sx -> 0 <= n <= 715827882 -> cell_get h tmb 1 = Some (VInt n) ->
   (forall s1 s2, sec_read sx = Ok (3, s1) -> read_int32 false s1 = Ok (n, s2) -> cols_nobit (Z.to_nat n) s2) ->
   exists f0, forall f, (f0 <= f)%nat -> exists st fin,
-    callC prog_env f prog_sbdf_ts_read [VPtr rf fo; VCell tmb 0; VNull; VPtr rp po] m k sx h = OReturn (VInt st) fin /\ prefix_of m (inb fin) /\
+    callC prog_env f prog_sbdf_ts_read [VPtr rf fo; VCell tmb 0; VNull; VPtr rp po] m k sx h = OReturn (VInt st) fin /\ prefix_of m (inb fin) /\ ts_frame_status n sx st /\
     ((st = SBDF_OK /\ Imp.lookup "*out" (vars fin) = Some (VCell (List.length h) 0) /\
         (exists s1 s2 s', sec_read sx = Ok (3, s1) /\ read_int32 false s1 = Ok (n, s2) /\ cols_end (Z.to_nat n) s2 = Some s' /\ Imp.lookup strm_var (vars fin) = Some (VBytes s')) /\
         exists hnew, Imp.lookup cells_var (vars fin) = Some (VHeap (h ++ hnew)) /\ (2 <= List.length hnew)%nat /\
